@@ -7,6 +7,7 @@ in `charclasses.py`, which are validated exhaustively over all code points on ev
 from __future__ import annotations
 
 import ast
+import os
 
 import z3
 
@@ -393,7 +394,10 @@ def function(ip: Interp, fn: PyConst, args, kwargs, n):
         npos = S.rec_get(O.o_ok__res(v), 'newpos')
         return z3.ForAll([k], z3.Implies(
             z3.Select(d.f['mkeys'], k),
-            z3.And(z3.Implies(O.is_o_err(v), ip.w.exc.is_sub(O.o_err__cls(v), 'ParseException')),
+            # a remembered failure is a TatSu parse exception and never a raw FailedSemantics (C06: what is replayed from the
+            # table must fail like a syntax mismatch, i.e. be the FailedParse the semantic failure was converted to)
+            z3.And(z3.Implies(O.is_o_err(v), z3.And(ip.w.exc.is_sub(O.o_err__cls(v), 'ParseException'),
+                                                    z3.Not(ip.w.exc.is_sub(O.o_err__cls(v), 'FailedSemantics')))),
                    z3.Implies(O.is_o_ok(v), z3.And(npos >= 0, npos <= ip.as_int(ln, n))),
                    z3.Not(O.is_o_none(v)))))
     if name == 'outcome_ok':
@@ -401,7 +405,8 @@ def function(ip: Interp, fn: PyConst, args, kwargs, n):
         O = S.UNIONS['Outcome']
         v = ip.coerce_sort(v, O, n)
         npos = S.rec_get(O.o_ok__res(v), 'newpos')
-        return z3.And(z3.Implies(O.is_o_err(v), ip.w.exc.is_sub(O.o_err__cls(v), 'ParseException')),
+        return z3.And(z3.Implies(O.is_o_err(v), z3.And(ip.w.exc.is_sub(O.o_err__cls(v), 'ParseException'),
+                                                       z3.Not(ip.w.exc.is_sub(O.o_err__cls(v), 'FailedSemantics')))),
                       z3.Implies(O.is_o_ok(v), z3.And(npos >= 0, npos <= ip.as_int(ln, n))),
                       z3.Not(O.is_o_none(v)))
     if name == 'submap':
@@ -888,7 +893,9 @@ def str_to_int(ip: Interp, x, n):
 def float_lang(ip: Interp, s: ArrStr):
     """uninterpreted: `float()` accepts the slice.  No definition is given to the prover; the only
     fact about it comes from match_float's bounded lemma."""
-    return ip.w.uf('float_ok', z3.ArraySort(z3.IntSort(), z3.IntSort()), z3.IntSort(), z3.IntSort(), z3.BoolSort())(s.arr, s.lo, s.hi)
+    if os.environ.get('PYVC_FLOAT_UF'):
+        return ip.w.uf('float_ok', z3.ArraySort(z3.IntSort(), z3.IntSort()), z3.IntSort(), z3.IntSort(), z3.BoolSort())(s.arr, s.lo, s.hi)
+    return float_lang_def(ip, s)
 
 
 def float_lang_def(ip: Interp, s: ArrStr):
@@ -1063,6 +1070,9 @@ def str_method(ip, s, name, args, n):
         ip.oos('str.replace (replace-all) is not modelled', n)
     if name == 'join':
         (parts,) = args
+        if isinstance(parts, GenExp):
+            # sep.join(<generator>): some string (nothing is claimed about it; sound for every use)
+            return ip.p.fresh('joined', z3.StringSort())
         if z3.is_expr(parts) and S.is_seq(parts) and parts.sort() != S.SeqVal:
             return ip.w.uf(f'str_join_{parts.sort().basis()}', z3.StringSort(), parts.sort(), z3.StringSort())(s, parts)
         seq = ip.as_seq(parts, n)
